@@ -256,6 +256,7 @@ class Path:
         self.side = []      # (name, z3 bool, node) definedness obligations met on the way (division, sqrt ...)
         self.assumed = []   # asserts in code treated as assumptions (recorded)
         self.fresh = itertools.count()
+        self.qfacts = []    # quantified facts met on the path, instantiated on demand (symstruct)
 
     def decide(self, c):
         c = simp(c)
@@ -596,12 +597,32 @@ class Interp:
 
     def ex_Tuple(self, n, env):
         out = []
+        lazy = False
         for e in n.elts:
             if isinstance(e, ast.Starred):
-                out.extend(self.iterate(self.eval(e.value, env)))
+                v = self.eval(e.value, env)
+                if _symbolic_len(v):
+                    out.append(("seq", v))
+                    lazy = True
+                else:
+                    out.extend(("item", x) for x in self.iterate(v))
             else:
-                out.append(self.eval(e, env))
-        return tuple(out)
+                out.append(("item", self.eval(e, env)))
+        if lazy:
+            from .symstruct import ConcatSeq, TupleSeq
+            parts, cur = [], []
+            for k, v in out:
+                if k == "item":
+                    cur.append(v)
+                else:
+                    if cur:
+                        parts.append(TupleSeq(cur))
+                        cur = []
+                    parts.append(v)
+            if cur:
+                parts.append(TupleSeq(cur))
+            return ConcatSeq(parts)
+        return tuple(v for _, v in out)
 
     def ex_List(self, n, env):
         return list(self.ex_Tuple(n, env))
@@ -694,7 +715,12 @@ class Interp:
         args = []
         for a in n.args:
             if isinstance(a, ast.Starred):
-                args.extend(self.iterate(self.eval(a.value, env)))
+                v = self.eval(a.value, env)
+                if _symbolic_len(v):
+                    from .symstruct import Star
+                    args.append(Star(v))
+                else:
+                    args.extend(self.iterate(v))
             else:
                 args.append(self.eval(a, env))
         kwargs = {}
@@ -708,13 +734,36 @@ class Interp:
         return self.call(f, args, kwargs, n)
 
     def ex_ListComp(self, n, env):
+        m = self._lazy_map(n, env)
+        if m is not None:
+            return m
         return list(self._comp(n, env, lambda e: self.eval(n.elt, e)))
 
     def ex_SetComp(self, n, env):
         return set(self._comp(n, env, lambda e: self.eval(n.elt, e)))
 
     def ex_GeneratorExp(self, n, env):
+        m = self._lazy_map(n, env)
+        if m is not None:
+            return m
         return _Gen(list(self._comp(n, env, lambda e: self.eval(n.elt, e))))
+
+    def _lazy_map(self, n, env):
+        """(elt for x in <sequence of symbolic length>) with no filter  ->  MapSeq evaluated on demand."""
+        if len(n.generators) != 1 or n.generators[0].ifs:
+            return None
+        g = n.generators[0]
+        base = self.eval(g.iter, env)
+        if not _symbolic_len(base):
+            return None
+        from .symstruct import MapSeq
+
+        def fn(interp, x, g=g, env=env, n=n):
+            e2 = Env(env, {})
+            interp.assign(g.target, x, e2)
+            return interp.eval(n.elt, e2)
+
+        return MapSeq(base, fn)
 
     def ex_DictComp(self, n, env):
         return dict(self._comp(n, env, lambda e: (self.eval(n.key, e), self.eval(n.value, e))))
@@ -1242,6 +1291,10 @@ class NativeMethod:
         raise OutOfSubset(f"method {type(o).__name__}.{name}")
 
 
+def _symbolic_len(v):
+    return getattr(v, "is_lseq", False) and not isinstance(v.length(), int)
+
+
 def pytype_name(v):
     if isinstance(v, bool):
         return "bool"
@@ -1436,6 +1489,8 @@ def _b_isinstance(interp, args, kw):
 
 
 def _b_tuple(interp, args, kw):
+    if args and _symbolic_len(args[0]):
+        return args[0]
     return tuple(interp.iterate(args[0])) if args else ()
 
 
@@ -1444,6 +1499,9 @@ def _b_list(interp, args, kw):
 
 
 def _b_set(interp, args, kw):
+    if args and _symbolic_len(args[0]):
+        from .symstruct import SeqAsSet
+        return SeqAsSet(args[0])
     return set(interp.iterate(args[0])) if args else set()
 
 
